@@ -7,6 +7,9 @@ package main
 
 //@ spec expandLoc(r string, wd string, gp string, gr string) string = ite(hasPrefix(r, "./"), wd ++ substr(r, 2, len(r)), ite(hasPrefix(r, "$GOPATH/"), gp ++ substr(r, 8, len(r)), ite(hasPrefix(r, "$GOROOT/"), gr ++ substr(r, 8, len(r)), r)))
 
+//@ spec absClean(s string) bool = hasPrefix(s, "/") && !contains(s, "//")
+//@ spec rootsNormalised(p *program) bool = absClean(p.workDir) && hasSuffix(p.workDir, "/") && absClean(p.gopath) && hasSuffix(p.gopath, "/") && absClean(p.goroot) && hasSuffix(p.goroot, "/")
+
 //@ func addTrailingSlash
 //@   prop C16
 //@   ensures @ends-with-slash hasSuffix(result, "/")
@@ -15,9 +18,8 @@ package main
 //@ func (*program).shortenLocation
 //@   prop C16
 //@   requires p != nil
-//@   requires @abs-loc hasPrefix(loc, "/") && !contains(loc, "//")
-//@   requires @roots-normalised hasPrefix(p.workDir, "/") && hasSuffix(p.workDir, "/") && hasPrefix(p.gopath, "/") && hasSuffix(p.gopath, "/") && hasPrefix(p.goroot, "/") && hasSuffix(p.goroot, "/") && !contains(p.workDir, "//") && !contains(p.gopath, "//") && !contains(p.goroot, "//")
-//@   ensures @expand-roundtrip expandLoc(result, p.workDir, p.gopath, p.goroot) == loc
+//@   pure
+//@   ensures @expand-roundtrip (absClean(loc) && rootsNormalised(p)) ==> expandLoc(result, p.workDir, p.gopath, p.goroot) == loc
 
 //@ func (*program).exit
 //@   prop C16
@@ -56,11 +58,11 @@ package main
 //@   requires @registry-wf forall k int :: (0 <= k && k < len(p.infoList)) ==> wfInfo(p.infoList[k])
 //@   assigns p.checkers
 //@   call linter.NewChecker requires @constructed-only-if-selected selectedS(arg1, p.filters.enableAll, p.filters.enable, p.filters.disable)
-//@   ensures @selected-only result == nil ==> (forall m int :: (0 <= m && m < len(p.checkers)) ==> (p.checkers[m] != nil && (exists k int :: 0 <= k && k < len(p.infoList) && p.infoList[k] == p.checkers[m].Info && selectedS(p.infoList[k], p.filters.enableAll, p.filters.enable, p.filters.disable))))
+//@   ensures @selected-only result == nil ==> (forall m int :: (0 <= m && m < len(p.checkers)) ==> (validChecker(p.checkers[m]) && (exists k int :: 0 <= k && k < len(p.infoList) && p.infoList[k] == p.checkers[m].Info && selectedS(p.infoList[k], p.filters.enableAll, p.filters.enable, p.filters.disable))))
 //@   ensures @all-selected result == nil ==> (forall k int :: (0 <= k && k < len(p.infoList) && selectedS(p.infoList[k], p.filters.enableAll, p.filters.enable, p.filters.disable)) ==> (exists m int :: 0 <= m && m < len(p.checkers) && p.checkers[m] != nil && p.checkers[m].Info == p.infoList[k]))
 //@   ensures @empty-selection-is-error len(p.checkers) == 0 ==> result != nil
 //@   loop 1 invariant @fresh-checkers p.checkers == nil || fresh(p.checkers)
-//@   loop 1 invariant @selected-only-prefix forall m int :: (0 <= m && m < len(p.checkers)) ==> (p.checkers[m] != nil && fresh(p.checkers[m]) && (exists k int :: 0 <= k && k < $i && p.infoList[k] == p.checkers[m].Info && selectedS(p.infoList[k], p.filters.enableAll, p.filters.enable, p.filters.disable)))
+//@   loop 1 invariant @selected-only-prefix forall m int :: (0 <= m && m < len(p.checkers)) ==> (validChecker(p.checkers[m]) && fresh(p.checkers[m]) && (exists k int :: 0 <= k && k < $i && p.infoList[k] == p.checkers[m].Info && selectedS(p.infoList[k], p.filters.enableAll, p.filters.enable, p.filters.disable)))
 //@   loop 1 invariant @all-selected-prefix forall k int :: (0 <= k && k < $i && selectedS(p.infoList[k], p.filters.enableAll, p.filters.enable, p.filters.disable)) ==> (exists m int :: 0 <= m && m < len(p.checkers) && p.checkers[m] != nil && p.checkers[m].Info == p.infoList[k])
 
 // ---- C19: configuration errors
@@ -85,3 +87,74 @@ package main
 //@   loop 2 body @int-param-takes-flag-value typeIs(old(info.Params[pname].Value), "int") ==> (typeIs(info.Params[pname].Value, "int") && unbox(info.Params[pname].Value, "int") == deref(p.checkerParams.ints["@" ++ info.Name ++ "." ++ pname]))
 //@   loop 2 body @bool-param-takes-flag-value typeIs(old(info.Params[pname].Value), "bool") ==> (typeIs(info.Params[pname].Value, "bool") && unbox(info.Params[pname].Value, "bool") == deref(p.checkerParams.bools["@" ++ info.Name ++ "." ++ pname]))
 //@   loop 2 body @string-param-takes-flag-value typeIs(old(info.Params[pname].Value), "string") ==> (typeIs(info.Params[pname].Value, "string") && unbox(info.Params[pname].Value, "string") == deref(p.checkerParams.strings["@" ++ info.Name ++ "." ++ pname]))
+
+// ---- C16 / C08: what is printed, which files are checked
+
+// The goroutine body: runs one checker and stores its warnings into its own slot.
+//@ func (*program).checkFile$1
+//@   prop C04 C16
+//@   nosafety the deferred recover/re-panic closure is not interpreted
+//@   requires @own-slot 0 <= i && i < len(warnings) && validChecker(c)
+//@   requires @slot-empty warnings[i] == nil
+//@   assigns warnings[i], c.ctx.warnings
+
+//@ func (*program).checkFile
+//@   prop C16 C08 C04
+//@   nosafety checkers are non-nil by initCheckers' postcondition; not restated here
+//@   requires p != nil
+//@   requires @checkers-non-nil forall k int :: (0 <= k && k < len(p.checkers)) ==> validChecker(p.checkers[k])
+//@   sets $fileChecked(f) := true
+//@   assigns p.foundIssues, any(linter.CheckerContext.warnings)
+//@   loop 1 invariant @slots-empty-ahead len(warnings) == len(p.checkers) && (warnings == nil || fresh(warnings)) && (forall k int :: ($i <= k && k < len(warnings)) ==> warnings[k] == nil)
+//@   loop 1 invariant @never-reset old(p.foundIssues) ==> p.foundIssues
+//@   loop 2 invariant @never-reset old(p.foundIssues) ==> p.foundIssues
+//@   loop 3 invariant @never-reset old(p.foundIssues) ==> p.foundIssues
+//@   loop 1 invariant @log-monotone emitted(printed) >= old(emitted(printed))
+//@   loop 2 invariant @log-monotone emitted(printed) >= old(emitted(printed))
+//@   loop 3 invariant @log-monotone emitted(printed) >= old(emitted(printed))
+//@   loop 2 invariant @found-iff-printed p.foundIssues <==> (old(p.foundIssues) || emitted(printed) > old(emitted(printed)))
+//@   loop 3 invariant @found-iff-printed p.foundIssues <==> (old(p.foundIssues) || emitted(printed) > old(emitted(printed)))
+//@   loop 3 body @one-line-per-warning emitted(printed) == old(emitted(printed)) + 1
+//@   call log.Printf requires @line-is-loc-checker-text arg0 == "%s: %s: %s\n" && len(arg1) == 3 && unbox(arg1[1], "string") == c.Info.Name && unbox(arg1[2], "string") == warn.Text
+//@   call log.Printf requires @line-location-full !p.shorterErrLocation ==> unbox(arg1[0], "string") == positionString(fsetPosition(p.ctx.FileSet, warn.Pos))
+//@   call log.Printf requires @line-location-short (p.shorterErrLocation && rootsNormalised(p) && absClean(positionString(fsetPosition(p.ctx.FileSet, warn.Pos)))) ==> expandLoc(unbox(arg1[0], "string"), p.workDir, p.gopath, p.goroot) == positionString(fsetPosition(p.ctx.FileSet, warn.Pos))
+//@   ensures @never-reset old(p.foundIssues) ==> p.foundIssues
+//@   ensures @found-iff-printed p.foundIssues <==> (old(p.foundIssues) || emitted(printed) > old(emitted(printed)))
+
+//@ readonly generatedFileCommentRE @compiled value != nil
+
+//@ spec fileNameOf(p *program, f *ast.File) string = pathBase(fsetPosition(p.fset, filePos(f)).Filename)
+//@ spec isGenSpec(f *ast.File) bool = len(f.Comments) != 0 && reMatch(generatedFileCommentRE, cgText(f.Comments[0]))
+//@ spec skipFile(p *program, f *ast.File) bool = (!p.checkTests && hasSuffix(fileNameOf(p, f), "_test.go")) || (!p.checkGenerated && isGenSpec(f))
+
+//@ func (*program).getFilename
+//@   prop C16
+//@   requires p != nil
+//@   pure
+//@   ensures @base-name-of-file result == fileNameOf(p, f)
+
+//@ func (*program).isGenerated
+//@   prop C16
+//@   requires f != nil
+//@   pure
+//@   ensures @first-comment-matches result <==> isGenSpec(f)
+
+//@ func (*program).checkPackage
+//@   prop C16
+//@   nosafety loader output (non-nil syntax trees, context) is not restated here
+//@   requires p != nil && pkg != nil && p.ctx != nil && p.ctx.TypesInfo != nil
+//@   requires @files-non-nil forall k int :: (0 <= k && k < len(pkg.Syntax)) ==> pkg.Syntax[k] != nil
+//@   requires @checkers-non-nil forall k int :: (0 <= k && k < len(p.checkers)) ==> validChecker(p.checkers[k])
+//@   assigns p.foundIssues, any(linter.CheckerContext.warnings), p.ctx.Pkg, p.ctx.Filename, p.ctx.PkgObjects, p.ctx.PkgRenames, object(p.ctx.TypesInfo)
+//@   sets $pkgChecked(pkg) := true
+//@   call (*program).checkFile requires @only-unfiltered-files-are-checked !skipFile(p, arg1)
+//@   loop 1 body @file-checked-iff-not-filtered $fileChecked(pkg.Syntax[$i]) <==> (old($fileChecked(pkg.Syntax[$i])) || !skipFile(p, pkg.Syntax[$i]))
+
+//@ func (*program).runCheckers
+//@   prop C16
+//@   nosafety loader output (non-nil packages) is not restated here
+//@   requires p != nil && p.ctx != nil && p.ctx.TypesInfo != nil
+//@   requires @loader-output forall k int :: (0 <= k && k < len(p.loadedPackages)) ==> (p.loadedPackages[k] != nil && (forall j int :: (0 <= j && j < len(p.loadedPackages[k].Syntax)) ==> p.loadedPackages[k].Syntax[j] != nil))
+//@   requires @checkers-non-nil forall k int :: (0 <= k && k < len(p.checkers)) ==> validChecker(p.checkers[k])
+//@   assigns p.foundIssues, any(linter.CheckerContext.warnings), p.ctx.Pkg, p.ctx.Filename, p.ctx.PkgObjects, p.ctx.PkgRenames, object(p.ctx.TypesInfo)
+//@   loop 1 body @every-loaded-package-is-checked $pkgChecked(p.loadedPackages[$i])
